@@ -32,6 +32,24 @@ def _recording_add_attr(cls, key, *a, **kw):
 
 
 FrozenClass.add_attr = classmethod(_recording_add_attr)
+
+# ground truth for "read-only": every name an object was told to register with readOnly=True, recorded independently of the
+# sets the library keeps (kept on the object itself)
+from pySDC.core.common import RegisterParams  # noqa: E402
+
+_orig_register = RegisterParams._makeAttributeAndRegister
+
+
+def _recording_register(self, *names, localVars=None, readOnly=False):
+    if readOnly:
+        try:
+            object.__setattr__(self, '_vf_ro_declared', set(getattr(self, '_vf_ro_declared', ())) | set(names))
+        except Exception:  # noqa: BLE001
+            pass
+    return _orig_register(self, *names, localVars=localVars, readOnly=readOnly)
+
+
+RegisterParams._makeAttributeAndRegister = _recording_register
 from pySDC.implementations.controller_classes.controller_nonMPI import controller_nonMPI
 from pySDC.implementations.controller_classes.controller_ParaDiag_nonMPI import controller_ParaDiag_nonMPI
 from pySDC.implementations.problem_classes.TestEquation_0D import testequation0d, test_equation_IMEX
@@ -471,7 +489,7 @@ def _fault_case(arg):
         for l, Lv in enumerate(S.levels):
             Pb = Lv.prob
             base_cls = [c.__name__ for c in type(Pb).__mro__ if c.__name__ in READONLY][0]
-            names = sorted(set(READONLY[base_cls]) | set(getattr(Pb, '_parNamesReadOnly', ())))
+            names = sorted(set(READONLY[base_cls]) | set(getattr(Pb, '_parNamesReadOnly', ())) | set(getattr(Pb, '_vf_ro_declared', ())))
             for n in names:
                 nro += 1
                 if n not in Pb.params:
@@ -668,20 +686,33 @@ def run(rep, tier):
             tv.append((sig, det, {'part': 'transfer', 'arg': list(arg)}))
     tv = _min_by(tv, lambda s: common.canon({k: s[k] for k in s if k in ('kind', 'entry')}))
 
-    for sig, det, rp in gv + fv + cv + tv:
+    # E. read-only declarations of every importable problem class
+    rcl = readonly_classes()
+    rv = []
+    nE = 0
+    both = {}
+    for cn, out in zip(rcl, common.pmap(readonly_case, rcl, chunksize=1)):
+        nE += out['n']
+        if out.get('both_ways'):
+            both[cn] = out['both_ways']
+        for sig, det in out['violations']:
+            rv.append((sig, det, {'part': 'readonly_classes', 'class': cn}))
+    rv = _min_by(rv, lambda s: common.canon({k: s[k] for k in s if k in ('kind', 'declared_in')}))
+
+    for sig, det, rp in gv + fv + cv + tv + rv:
         rep.violation(sig, det, rp)
 
     nB = len(cases)
     nC = len(ccases)
     rep.coverage.update(
         {
-            'evaluations': nA + nB + nC + nfrozen + nro + len(tcases),
+            'evaluations': nA + nB + nC + nfrozen + nro + len(tcases) + nE,
             'distinct_nontrivial': multi + (nB - len(BASES)) + sum(1 for c in ccases if len(c[0]) >= 2),
             'rule': 'A: every shape assignment (scalar | list of length 1..4) of the 13 list-capable entries with at most '
             f'{2 if tier == "quick" else 3} list-valued entries, non-trivial iff some list has length >= 2 (several levels); '
             'B: every entry of the single-fault table of 7 valid bases (non-trivial: every fault; the 7 bases themselves are the over-rejection controls), '
             'every frozen object reachable from each base controller, every read-only parameter of every problem instance; '
-            'C: every subset of the controller pool in both insertion orders, non-trivial iff >= 2 classes; D: 2..4 levels x every combination of scalar | list of length 1..levels for space_transfer_class, space_transfer_params, base_transfer_params. All cases are distinct by construction.',
+            'C: every subset of the controller pool in both insertion orders, non-trivial iff >= 2 classes; D: 2..4 levels x every combination of scalar | list of length 1..levels for space_transfer_class, space_transfer_params, base_transfer_params; E: every importable problem class x every name it registers read-only (recorded at the registration call), and x every ordinary parameter declared read-only by a subclass. All cases are distinct by construction.',
             'samples': [
                 _grammar_sample(order),
                 {'fault_case': ['pfasst3', ['set', 'sweeper_params', 'quad_type', 'GAUSS', 1]], 'outcome': [r['rejected_with'] for r in fres if r['base'] == 'pfasst3' and r['fault'] == ['set', 'sweeper_params', 'quad_type', 'GAUSS', 1]]},
@@ -700,6 +731,9 @@ def run(rep, tier):
                 'readonly_parameters_probed': nro,
                 'controller_subsets': nC,
                 'transfer_list_shapes': len(tcases),
+                'readonly_declarations_probed': nE,
+                'problem_classes_probed': len(rcl),
+                'registered_both_ways': both,
                 'controller_pool': POOLNAMES[:npool],
             },
         }
@@ -794,6 +828,81 @@ def transfer_case(arg):
     return out
 
 
+def readonly_classes():
+    from vf.env import c12_recipes as rc
+
+    classes, _ = rc.discover()
+    return sorted(n for n in classes if n in rc.VARIANTS and n not in rc.ABSTRACT)
+
+
+def readonly_case(clsname):
+    """Every importable problem class: (a) each name it registers with readOnly=True (recorded at the call) rejects assignment,
+    also when the same name is registered as an ordinary parameter too; (b) a subclass that declares one of the parent's
+    writable parameters read-only (every such parameter in turn) rejects assignment of it."""
+    try:
+        return guarded(_readonly_case, clsname)
+    except TimeoutError:
+        return {'n': 0, 'violations': [], 'skipped': 'timeout'}
+
+
+def _probe(Pb, n):
+    try:
+        old = getattr(Pb, n)
+    except Exception:  # noqa: BLE001
+        return None
+    try:
+        setattr(Pb, n, old)
+    except Exception:  # noqa: BLE001
+        return True
+    return False
+
+
+def _readonly_case(clsname):
+    from vf.env import c12_recipes as rc
+
+    classes, _ = rc.discover()
+    cls = classes[clsname]
+    label, params = rc.VARIANTS[clsname]('quick')[0]
+    out = {'n': 0, 'violations': [], 'both_ways': []}
+    try:
+        Pb = cls(**params)
+    except Exception as e:  # noqa: BLE001
+        out['skipped'] = f'{type(e).__name__}: {e}'[:120]
+        return out
+    ro = sorted(set(getattr(Pb, '_vf_ro_declared', ())))
+    writable = sorted(set(Pb._parNames) - set(ro))
+    for n in ro:
+        out['n'] += 1
+        if n in Pb._parNames:
+            out['both_ways'].append(n)
+        if n not in Pb.params:
+            out['violations'].append(({'part': 'readonly_classes', 'kind': 'parameter_not_registered', 'class': clsname, 'parameter': n}, {'params': sorted(Pb.params)}))
+        elif _probe(Pb, n) is False:
+            out['violations'].append(({'part': 'readonly_classes', 'kind': 'readonly_parameter_changed', 'class': clsname, 'parameter': n}, {'variant': label, 'also_registered_as_ordinary_parameter': n in Pb._parNames, 'expected': 'ReadOnlyError', 'observed': 'assignment accepted'}))
+    for n in writable:
+
+        def __init__(self, _n=n, **kw):
+            cls.__init__(self, **kw)
+            self._makeAttributeAndRegister(_n, localVars={_n: getattr(self, _n)}, readOnly=True)
+
+        Sub = type(f'{clsname}_{n}_readonly', (cls,), {'__init__': __init__})
+        try:
+            Q = Sub(**params)
+        except Exception:  # noqa: BLE001
+            continue
+        out['n'] += 1
+        if n not in Q.params:
+            out['violations'].append(({'part': 'readonly_classes', 'kind': 'parameter_not_registered', 'class': clsname, 'parameter': n, 'declared_in': 'subclass'}, {'params': sorted(Q.params)}))
+        elif _probe(Q, n) is False:
+            out['violations'].append(({'part': 'readonly_classes', 'kind': 'readonly_parameter_changed', 'class': clsname, 'parameter': n, 'declared_in': 'subclass'}, {'variant': label, 'expected': 'ReadOnlyError', 'observed': 'assignment accepted: the subclass declares a parameter read-only that the parent registers as an ordinary one'}))
+        # the other parameters keep their status: the parent's ordinary parameters stay writable
+        for m in writable:
+            if m != n and _probe(Q, m) is True:
+                out['violations'].append(({'part': 'readonly_classes', 'kind': 'ordinary_parameter_rejected', 'class': clsname, 'parameter': m}, {'after_declaring_read_only': n}))
+                break
+    return out
+
+
 def transfer_cases():
     return [(nlev, a, b, c) for nlev in (2, 3, 4) for a in range(0, nlev + 1) for b in range(0, nlev + 1) for c in range(0, nlev + 1)]
 
@@ -821,6 +930,9 @@ def replay(rep, case):
             rep.violation(sig, det, case)
     elif part == 'transfer':
         for sig, det in transfer_case(tuple(case['arg'])):
+            rep.violation(sig, det, case)
+    elif part == 'readonly_classes':
+        for sig, det in readonly_case(case['class'])['violations']:
             rep.violation(sig, det, case)
     else:
         raise KeyError(part)
